@@ -78,3 +78,125 @@ fn vsup_selftest_peek() {
     let r = peek(&format_args!("{e}: [E10] x {y}"));
     assert!(!r.has_lead);
 }
+
+// ---- a minimal configuration object for harnesses ------------------------------------------
+use crate::config::check::{CheckCommands, CheckModeArgs, ChecksOpt, System};
+use crate::config::custom_checks::{custom_checks_cfg::CustomChecks, CustomChecksOpt};
+use crate::config::util::UtilOpt;
+use alice_protocol_reader::prelude::FilterOpt;
+
+/// Plain-data stand-in for `Cfg` (which holds PathBufs, Vecs and a parsed TOML): implements the
+/// option traits the validators are generic over. No clap, no files.
+#[derive(Clone, Copy)]
+pub struct VCfg {
+    /// 0 = no check, 1 = `check sanity`, 2 = `check all`
+    pub mode: u8,
+    /// 0 = no target, 1 = `its`, 2 = `its-stave`
+    pub target: u8,
+    pub trigger_period: Option<u16>,
+    pub mute: bool,
+    pub rdh_version: Option<u8>,
+    pub cdps: Option<u32>,
+    pub pht: Option<u32>,
+    pub chip_count_ob: Option<u8>,
+    pub skip_payload: bool,
+    pub filter_link: Option<u8>,
+    pub filter_fee: Option<u16>,
+    pub filter_stave: Option<u16>,
+    pub exit_code: Option<u8>,
+}
+
+pub const VCFG0: VCfg = VCfg {
+    mode: 0, target: 0, trigger_period: None, mute: false, rdh_version: None, cdps: None, pht: None,
+    chip_count_ob: None, skip_payload: false, filter_link: None, filter_fee: None, filter_stave: None,
+    exit_code: None,
+};
+pub static VCFG_SANITY: VCfg = VCfg { mode: 1, ..VCFG0 };
+pub static VCFG_ALL: VCfg = VCfg { mode: 2, ..VCFG0 };
+pub static VCFG_SANITY_ITS: VCfg = VCfg { mode: 1, target: 1, ..VCFG0 };
+pub static VCFG_ALL_ITS: VCfg = VCfg { mode: 2, target: 1, ..VCFG0 };
+pub static VCFG_ALL_STAVE: VCfg = VCfg { mode: 2, target: 2, ..VCFG0 };
+/// for harnesses that need symbolic option values: set it first, then take `vcfg_dyn()`
+pub static mut VCFG_DYN: VCfg = VCFG0;
+pub fn vcfg_dyn() -> &'static VCfg {
+    unsafe { &*core::ptr::addr_of!(VCFG_DYN) }
+}
+
+impl ChecksOpt for VCfg {
+    fn check(&self) -> Option<CheckCommands> {
+        let target = match self.target {
+            1 => Some(System::ITS),
+            2 => Some(System::ITS_Stave),
+            _ => None,
+        };
+        let args = CheckModeArgs { target, ..Default::default() };
+        match self.mode {
+            1 => Some(CheckCommands::Sanity(args)),
+            2 => Some(CheckCommands::All(args)),
+            _ => None,
+        }
+    }
+    fn check_its_trigger_period(&self) -> Option<u16> {
+        self.trigger_period
+    }
+}
+impl FilterOpt for VCfg {
+    fn skip_payload(&self) -> bool {
+        self.skip_payload
+    }
+    fn filter_link(&self) -> Option<u8> {
+        self.filter_link
+    }
+    fn filter_fee(&self) -> Option<u16> {
+        self.filter_fee
+    }
+    fn filter_its_stave(&self) -> Option<u16> {
+        self.filter_stave
+    }
+}
+impl CustomChecksOpt for VCfg {
+    fn custom_checks(&'static self) -> Option<&'static CustomChecks> {
+        None
+    }
+    fn custom_checks_enabled(&'static self) -> bool {
+        self.rdh_version.is_some() || self.cdps.is_some() || self.pht.is_some() || self.chip_count_ob.is_some()
+    }
+    fn generate_custom_checks_toml_enabled(&self) -> bool {
+        false
+    }
+    fn cdps(&'static self) -> Option<u32> {
+        self.cdps
+    }
+    fn triggers_pht(&'static self) -> Option<u32> {
+        self.pht
+    }
+    fn rdh_version(&'static self) -> Option<u8> {
+        self.rdh_version
+    }
+    fn chip_orders_ob(&'static self) -> Option<&[Vec<u8>]> {
+        None
+    }
+    fn chip_count_ob(&'static self) -> Option<u8> {
+        self.chip_count_ob
+    }
+}
+impl UtilOpt for VCfg {
+    fn verbosity(&self) -> u8 {
+        0
+    }
+    fn max_tolerate_errors(&self) -> u32 {
+        0
+    }
+    fn any_errors_exit_code(&self) -> Option<u8> {
+        self.exit_code
+    }
+    fn mute_errors(&self) -> bool {
+        self.mute
+    }
+    fn error_code_filter(&self) -> Option<&[String]> {
+        None
+    }
+    fn disable_styled_views(&self) -> bool {
+        true
+    }
+}
